@@ -46,13 +46,12 @@ theorem Bsq_le_pow {n : Nat} (hn : 2 ≤ n) : B * B ≤ B ^ n := by
   have := Nat.pow_le_pow_right B_pos hn
   rwa [Nat.pow_two] at this
 
-/-- The reduction step of `mul_mod_special`, for ANY double-width input `(lo, hi)`:
-    correct as soon as `carry + 1` does not overflow the limb. -/
-theorem specialReduce_spec {lo hi : List Nat} {c : Nat} (hlo : WF lo) (hhi : WF hi)
-    (h : lo.length = hi.length) (hn : 2 ≤ lo.length) (hc1 : 1 ≤ c) (hc : c < B)
-    (H : (macByLimb lo hi c 0).2 + 1 < B) :
-    val (specialReduce lo hi c) = (val lo + B ^ lo.length * val hi) % (B ^ lo.length - c) ∧
-    WF (specialReduce lo hi c) ∧ (specialReduce lo hi c).length = lo.length := by
+/-- The REPAIRED reduction step (increment in the wide type) is correct for ANY double-width input
+    `(lo, hi)` and any `1 ≤ c < 2^64`, for all limb counts `≥ 2`. -/
+theorem specialReduceRepaired_spec {lo hi : List Nat} {c : Nat} (hlo : WF lo) (hhi : WF hi)
+    (h : lo.length = hi.length) (hn : 2 ≤ lo.length) (hc1 : 1 ≤ c) (hc : c < B) :
+    val (specialReduceRepaired lo hi c) = (val lo + B ^ lo.length * val hi) % (B ^ lo.length - c) ∧
+    WF (specialReduceRepaired lo hi c) ∧ (specialReduceRepaired lo hi c).length = lo.length := by
   have ⟨e1, hq, hmw, hml⟩ := macByLimb_spec hlo hhi h hc (show 0 < B by decide)
   have hvlo := val_lt hlo
   have hvhi := val_lt hhi; rw [← h] at hvhi
@@ -62,14 +61,13 @@ theorem specialReduce_spec {lo hi : List Nat} {c : Nat} (hlo : WF lo) (hhi : WF 
   -- name the pieces
   generalize hqd : (macByLimb lo hi c 0).2 = q at *
   generalize hm1 : (macByLimb lo hi c 0).1 = m at *
-  have hwadd : wadd q 1 = q + 1 := by unfold wadd; exact Nat.mod_eq_of_lt H
-  have hd : specialReduce lo hi c =
+  have hd : specialReduceRepaired lo hi c =
       (usbb (uadc m (fromWideWord lo.length ((q + 1) * c)) 0).1
         (fromWord lo.length (wsub (uadc m (fromWideWord lo.length ((q + 1) * c)) 0).2 1 &&& c)) 0).1 := by
-    show (usbb (uadc (macByLimb lo hi c 0).1 (fromWideWord lo.length (wadd (macByLimb lo hi c 0).2 1 * c)) 0).1
+    show (usbb (uadc (macByLimb lo hi c 0).1 (fromWideWord lo.length (((macByLimb lo hi c 0).2 + 1) * c)) 0).1
         (fromWord lo.length (wsub (uadc (macByLimb lo hi c 0).1
-          (fromWideWord lo.length (wadd (macByLimb lo hi c 0).2 1 * c)) 0).2 1 &&& c)) 0).1 = _
-    rw [hqd, hm1, hwadd]
+          (fromWideWord lo.length (((macByLimb lo hi c 0).2 + 1) * c)) 0).2 1 &&& c)) 0).1 = _
+    rw [hqd, hm1]
   -- q ≤ c
   have hqc : q ≤ c := by
     have h1 : val hi * c ≤ B ^ lo.length * c := Nat.mul_le_mul_right c (Nat.le_of_lt hvhi)
@@ -96,7 +94,7 @@ theorem specialReduce_spec {lo hi : List Nat} {c : Nat} (hlo : WF lo) (hhi : WF 
   have hlen2 : ∀ l, (uadc m (fromWideWord lo.length ((q + 1) * c)) 0).1.length
       = (fromWord lo.length l).length := by intro l; rw [hl2, hml, fromWord_length]
   -- the value before the final modular identification
-  have hu : val (specialReduce lo hi c) = (val m + q * c) % (B ^ lo.length - c) := by
+  have hu : val (specialReduceRepaired lo hi c) = (val m + q * c) % (B ^ lo.length - c) := by
     rw [hd]
     rcases uadc_val_cases hlen1 hs with ⟨h0, hv, hlt⟩ | ⟨h1, hv⟩
     · rw [h0, w0, WMAX_and hc]
@@ -128,6 +126,26 @@ theorem specialReduce_spec {lo hi : List Nat} {c : Nat} (hlo : WF lo) (hhi : WF 
     rw [e2, Nat.add_mul_mod_self_left, e3, Nat.add_mul_mod_self_left]
   · rw [hd]; exact usbb_WF _ _ _
   · rw [hd, usbb_length _ _ _ (hlen2 _), hl2, hml]
+
+/-- as long as `carry + 1` does not overflow the limb, the code as written computes the repaired
+    reduction -/
+theorem specialReduce_eq_repaired {lo hi : List Nat} {c : Nat}
+    (H : (macByLimb lo hi c 0).2 + 1 < B) : specialReduce lo hi c = specialReduceRepaired lo hi c := by
+  have hwadd : wadd (macByLimb lo hi c 0).2 1 = (macByLimb lo hi c 0).2 + 1 := by
+    unfold wadd; exact Nat.mod_eq_of_lt H
+  unfold specialReduce specialReduceRepaired
+  simp only []
+  rw [hwadd]
+
+/-- The reduction step of `mul_mod_special` AS WRITTEN, for ANY double-width input `(lo, hi)`:
+    correct as soon as `carry + 1` does not overflow the limb. -/
+theorem specialReduce_spec {lo hi : List Nat} {c : Nat} (hlo : WF lo) (hhi : WF hi)
+    (h : lo.length = hi.length) (hn : 2 ≤ lo.length) (hc1 : 1 ≤ c) (hc : c < B)
+    (H : (macByLimb lo hi c 0).2 + 1 < B) :
+    val (specialReduce lo hi c) = (val lo + B ^ lo.length * val hi) % (B ^ lo.length - c) ∧
+    WF (specialReduce lo hi c) ∧ (specialReduce lo hi c).length = lo.length := by
+  rw [specialReduce_eq_repaired H]
+  exact specialReduceRepaired_spec hlo hhi h hn hc1 hc
 
 /-- the carry limb of `lo + hi·c` never exceeds `c` -/
 theorem macByLimb_carry_le {lo hi : List Nat} {c : Nat} (hlo : WF lo) (hhi : WF hi)
